@@ -497,8 +497,15 @@ class C09(Prop):
                                           "what": ["%s functions %d.." % (m, k)], "edits": [], "layout": None,
                                           "params": {"process_memory": pm},
                                           "rules": [{"tag": "x%d" % j, "imports": [m], "cond": c} for j, c in enumerate(conds[k:k + 12])]})
+        # extreme DATA behind aggregating functions: Rich header counts at the numeric limits, selected by the arguments
+        for what, apath, bhex, edits, rrules in mg.rich_family(fmt):
+            for pm in (False, True):
+                c = {"kind": "explore", "fkind": "pe", "mutation": "rich-aggregate", "what": [what], "edits": edits,
+                     "layout": None, "params": {"process_memory": pm}, "rules": rrules}
+                c.update({"asset": apath} if apath else {"base_hex": bhex})
+                cases.append(c)
         n_explore += sum(1 for c in cases if c["mutation"] in ("dotnet-index", "macho-entry-sweep", "count-field", "version-string",
-                                                               "dex-class-data", "function-extremes"))
+                                                               "dex-class-data", "function-extremes", "rich-aggregate"))
         i = 0
         while len(cases) < n_explore:
             r = rng.fork("m%d" % i)
